@@ -96,7 +96,8 @@ def judge(case, exp, e, c):
     for a, ch in enumerate(obs["chunks"]):
         if all(x >= 0 for x in ch) and (sum(ch) != obs["cshape"][a] or obs["lshape"][a] != obs["cshape"][a]):
             return "Meta"
-    if exp["tgt"] and obs["chunks"] != [list(t) for t in exp["tgt"]]:
+    empty = bool(exp["shape"]) and all(s == 0 for s in exp["shape"])      # dask does not rechunk such arrays
+    if exp["tgt"] and not empty and obs["chunks"] != [list(t) for t in exp["tgt"]]:
         return "RechunkTarget"
     cobs = c["obs"] if c else None
     if cobs and not cobs.get("raised") and "skip" not in cobs and cobs["cells"] == obs["cells"] and cobs["chunks"] != obs["chunks"]:
